@@ -47,6 +47,13 @@ CLAIMED["C20"] = ("Exhaustive finite matrix explored by the symbolic executor: t
          "The package-level encoders MarshalJSON(Item)/GobEncode(Item) go through jsonld/gob (reflection) and are exercised through the per-type MarshalJSON only.",
          "7 C20")
 
+CLAIMED["C01"] = ("Bounded symbolic model checking of the JSON encoders and decoders (the real per-type MarshalJSON, UnmarshalJSON, fastjson, net/url, time and strconv code, interpreted): for all 14 vocabulary struct types and every field of the current struct definitions (generated), every value shape (IRI, object with/without id, link, actor, 2-element list, activity, one-element lists, 1-3 language values, three instants, three durations, symbolic small integers, floats incl. negative, strings) with symbolic id characters and two-byte symbolic texts, the decoded value has the same Go type and equals the encoded one field by field after the documented normal form; per-type UnmarshalJSON methods agree; thorough adds everything-populated values and depth-2 nesting.",
+         "One populated property per value (plus id/type) in quick. Text is two lower-case letters (hostile text is C02/C06); ids are https://h.ex/<tag><symbolic alnum>. Numbers: integers 1..99 symbolic, floats and instants from stated finite sets. Nesting beyond depth 2 and arbitrary subsets of populated fields are outside the claim.",
+         "7 C01")
+CLAIMED["C02"] = ("Bounded symbolic model checking of everything the encoders write, against an independent strict RFC 8259 reader written in the harness (no duplicate member names, no raw control characters, strings decoded to bytes): 20 string-bearing positions (ids, IRIs in items/lists/embedded objects, types, media types, texts, language-map values, units, hrefLang, rel, key material, source) hold 0, 1 or 2 (thorough 3) completely unconstrained bytes; asserted: output is one valid JSON object, its member names are exactly the expected ones (nothing injected), the member sits under its term, is a JSON string and decodes to exactly the bytes held (for invalid UTF-8 the bytes or U+FFFD replacement). Every tagged field of every type is written under the term of its jsonld tag with the prescribed kind (booleans and numbers unquoted, instants parse as RFC 3339, durations as xsd:duration, multi-language values under termMap).",
+         "Hostile strings of up to 2 (quick) / 3 (thorough) bytes; longer strings are outside the claim (the escaper is byte-local, but that is an argument, not something this check decides).",
+         "7 C02")
+
 NOT_YET = {}
 
 def main():
